@@ -158,8 +158,13 @@ class ProgGen(object):
         sig.ptext = ptext
         self.register(sig, glob)
         cmd = 'gdef' if glob else 'def'
+        if glob and r.random() < 0.4:
+            cmd = 'global\\def'          # the prefix form of the same thing
+            self.features.add('global-prefix-def')
         if r.random() < 0.12:
             self.features.add('csname-def')
+            if cmd.startswith('global'):
+                return '\\global\\expandafter\\def\\csname %s\\endcsname%s{%s}' % (name, ptext, body)
             return '\\expandafter\\%s\\csname %s\\endcsname%s{%s}' % (cmd, name, ptext, body)
         return '\\%s\\%s%s{%s}' % (cmd, name, ptext, body)
 
@@ -267,10 +272,12 @@ class ProgGen(object):
         depth = len(self.scopes) - 1
         self.rank += 1
         name = self.fresh_name()
-        sig = Sig(name, src.kind, self.rank, depth, items=src.items, nargs=src.nargs, opt=src.opt, glob=False, plain=src.plain)
-        self.register(sig, False)
-        self.features.add('let')
-        return '\\let\\%s%s\\%s' % (name, r.choice(['=', '', ' = ', '= ']), src.name) + ' '
+        # (a global alias outlives the group: only of macros whose body calls nothing that is local to it)
+        glob = depth > 0 and r.random() < 0.3 and (src.plain is not None or (getattr(src, 'glob', False) and src.kind == 'def' and src.plain is not None))
+        sig = Sig(name, src.kind, self.rank, 0 if glob else depth, items=src.items, nargs=src.nargs, opt=src.opt, glob=glob, plain=src.plain)
+        self.register(sig, glob)
+        self.features.add('global-let' if glob else 'let')
+        return ('\\global' if glob else '') + '\\let\\%s%s\\%s' % (name, r.choice(['=', '', ' = ', '= ']), src.name) + ' '
 
     def gen_definer(self):
         """\\def\\a#1{\\def\\b##1{..#1..##1..}}  (NF-7: ## only inside a body that defines a macro)"""
